@@ -179,6 +179,11 @@ def subsets(pool, tier):
 ITEM_KINDS = {
     'String': dict(make=lambda **kw: StringGrader(**kw), e=('cat', 'dog', 'emu'),
                    inputs=['cat', 'dog', 'emu', ' Cat', '', 'ünï—²', 'cat dog']),
+    # accept_any / accept_nonempty: the expect values are irrelevant, the matched answer's credit and ok are reported
+    'StringAcceptAny': dict(make=lambda **kw: StringGrader(accept_any=True, min_words=1, explain_minimums='msg', **kw),
+                            e=('cat', 'dog', 'emu'), inputs=['cat', 'anything at all', '', ' ', 'ünï—²']),
+    'StringAcceptNonempty': dict(make=lambda **kw: StringGrader(accept_nonempty=True, min_length=3, explain_minimums=None, **kw),
+                                 e=('cat', 'dog', 'emu'), inputs=['cat', 'ab', '', 'long enough', 'ünï—²']),
     'Formula': dict(make=lambda **kw: FormulaGrader(variables=['x'], **kw), e=('x+1', '2*x', 'x^2'),
                     inputs=['1+x', 'x*2', 'x*x', 'x+1.00001', '', 'ünï—²', '0*x']),
     'Numerical': dict(make=lambda **kw: NumericalGrader(**kw), e=('2', '3', '5'),
@@ -360,7 +365,65 @@ class PositionalTable(Family):
         return Result('ok', True, None, calls)
 
 
+class SharedSubgraderDebug(Family):
+    name = 'debug_off_grader_shared_with_debug_parent'
+    rule = ('a grader built with debug=False that is also the subgrader of a debug=True ListGrader (flat, nested, list of subgraders): '
+            'sequences parent-call / own-call in both orders and twice: every result of the debug=False grader itself, and of a second '
+            'debug=False parent sharing it, must be free of debug output; kinds String, Formula, Numerical, SingleList')
+
+    KINDS = {
+        'String': (lambda: StringGrader(answers='cat', wrong_msg='w'), 'cat', 'dog'),
+        'Formula': (lambda: FormulaGrader(answers='x+1', variables=['x']), '1+x', 'x'),
+        'Numerical': (lambda: NumericalGrader(answers='2'), '2', '3'),
+        'SingleList': (lambda: SingleListGrader(answers=['a', 'b'], subgrader=StringGrader()), 'b,a', 'a,z'),
+    }
+
+    def cases(self, tier):
+        for kind in self.KINDS:
+            for layout in ('flat', 'sublist', 'nested'):
+                for seq in itertools.product('PSQ', repeat=3):      # P: debug parent call, S: the grader's own call, Q: debug-off parent
+                    yield (kind, layout, ''.join(seq))
+
+    def check(self, case):
+        kind, layout, seq = case
+        mk, right, wrong = self.KINDS[kind]
+        sub = mk()
+        ans = list(sub.config['answers'])
+        a = ans[0] if ans else None
+        a = {'expect': a['expect'][0], 'grade_decimal': a['grade_decimal'], 'msg': a['msg']} if isinstance(a, dict) else a
+
+        def parent(debug):
+            if layout == 'flat':
+                return ListGrader(answers=[a, a], subgraders=sub, debug=debug), [right, wrong]
+            if layout == 'sublist':
+                return ListGrader(answers=[a, 'x'], subgraders=[sub, StringGrader()], ordered=True, debug=debug), [right, 'x']
+            return (ListGrader(answers=[[a, a], [a, a]], subgraders=ListGrader(subgraders=sub), grouping=[1, 1, 2, 2], debug=debug),
+                    [right, wrong, wrong, right])
+        P, pin = parent(True)
+        Q, qin = parent(False)
+        calls = 0
+        for step, c in enumerate(seq):
+            calls += 1
+            if c == 'P':
+                out = call(P, pin, 'absent')
+                continue
+            if c == 'S':
+                out = call(sub, right if step % 2 else wrong, 'absent')
+                n = None
+            else:
+                out = call(Q, qin, 'absent')
+                n = len(qin)
+            if out[0] != 'ok':
+                continue
+            p = result_problem(out[1], n, False, False)
+            if p:
+                return Result(p[0], True,
+                              viol('shared:%s' % p[0], '%s subgrader shared by a debug=True %s ListGrader, call sequence %s (P debug parent, S itself, '
+                                   'Q debug-off parent), step %d: %s' % (kind, layout, seq, step + 1, p[1]), None, out[1]), calls)
+        return Result('clean', 'P' in seq and ('S' in seq or 'Q' in seq), None, calls)
+
+
 def families(tier):
     fams = [ItemGraders(k) for k in ITEM_KINDS]
-    fams += [ListGraders(), OtherGraders(), PositionalTable()]
+    fams += [ListGraders(), OtherGraders(), PositionalTable(), SharedSubgraderDebug()]
     return fams
